@@ -145,6 +145,7 @@ type Pool interface {
 	// Copy returns a copy of the allocator *value* (sharing whatever the value shares).
 	Copy() Pool
 	AllocsCycle(runs int) float64
+	AllocsCycleByValue(runs int) float64
 }
 
 type bufW[T signal.SignalTypes] struct {
@@ -275,7 +276,7 @@ func regType[T signal.SignalTypes](name string, k Kind, bits int, named bool) in
 	Types = append(Types, Type{t, name, k, bits, named})
 	tops = append(tops, typeOps{
 		alloc:      func(a signal.Allocator) Buf { return bufW[T]{signal.Alloc[T](a), t, k} },
-		newSl:      func(n int) Sl { return slW[T]{make([]T, n), t, k} },
+		newSl:      func(n int) Sl { return slW[T]{slack[T](n, t), t, k} },
 		nilSl:      func() Sl { return slW[T]{nil, t, k} },
 		newPool:    func(a signal.Allocator) Pool { p := signal.PoolAlloc[T](a); return poolW[T]{&p, t, k} },
 		newStriped: func(lens []int) Striped { return mkStriped[T](t, lens) },
@@ -284,13 +285,31 @@ func regType[T signal.SignalTypes](name string, k Kind, bits int, named bool) in
 	return t
 }
 
+// slack makes a []T of length n whose capacity is larger than its length; the hidden elements
+// hold garbage.  Callers' slices rarely have len == cap (windows of planar blocks, reused scratch,
+// results of append): the library must go by the length.
+func slack[T signal.SignalTypes](n, t int) []T {
+	s := make([]T, n, n+3)
+	g := fromVal[T](Garbage(t))
+	h := s[:cap(s)]
+	for i := n; i < len(h); i++ {
+		h[i] = g
+	}
+	return s
+}
+
 func unSl[S signal.SignalTypes](src []Sl, outerNil bool) [][]S {
 	if outerNil {
 		return nil
 	}
-	r := make([][]S, len(src))
+	// the outer slice has spare capacity too, holding usable slices the caller did not pass
+	r := make([][]S, len(src), len(src)+2)
 	for i, s := range src {
 		r[i] = s.(slW[S]).s
+	}
+	h := r[:cap(r)]
+	for i := len(src); i < len(h); i++ {
+		h[i] = make([]S, 3)
 	}
 	return r
 }
